@@ -319,6 +319,17 @@ func scenarios(full lcx.Cfg, basic lcx.Cfg) []scenario {
 			}
 		}
 		out = append(out, scenario{Name: kind + "/restart-with-more-tokens", Cfg: c, OtherTokens: dense, RestartTokens: c.NumTokens + 3, Life: []act{s(9 * time.Second), {Kind: "stop"}, s(8 * time.Second)}, LifeSpan: 19 * time.Second})
+		// ... and the same from a tokens file alone: the entry was unregistered, the file holds fewer tokens
+		// than the restarted process is configured with
+		// (full lifecycler only: the basic lifecycler's register delegate tops up against the tokens in the
+		// ring, which do not include the ones just loaded from the file, so with the harness's 32-token
+		// generator space it re-draws them; with a 2^32 space that is a non-event, and a changed
+		// configuration is outside the statement anyway)
+		c = base
+		c.Unregister, c.TokensPath = true, "x"
+		if !base.Basic {
+			out = append(out, scenario{Name: kind + "/restart-from-file-with-more-tokens", Cfg: c, OtherTokens: dense, RestartTokens: c.NumTokens + 3, Life: []act{s(9 * time.Second), {Kind: "stop"}, s(8 * time.Second)}, LifeSpan: 19 * time.Second})
+		}
 		if !base.Basic {
 			c = base
 			c.JoinAfter, c.TokensPath = 20*time.Second, ""
@@ -369,7 +380,7 @@ func TestCrashPointsEnum(t *testing.T) {
 		vx.Note("%s: %d crash points", sc.Name, points)
 		vx.Sample("crash_scenario", map[string]any{"scenario": sc.Name, "crash_points": points, "config": sc.Cfg.String()})
 	}
-	vx.Exhaustive("every store write (before and after its commit) of the scenarios {fresh join, join with observe period, restart from tokens file, leave keeping the entry, leave unregistering, restart configured with more tokens than the entry holds} x {full, basic lifecycler} and the token claim of the full lifecycler, one configuration per kind")
+	vx.Exhaustive("every store write (before and after its commit) of the scenarios {fresh join, join with observe period, restart from tokens file, leave keeping the entry, leave unregistering, restart configured with more tokens than the entry / the tokens file holds} x {full, basic lifecycler} and the token claim of the full lifecycler, one configuration per kind")
 }
 
 // TestCrashPointsRapid: generated configurations; for each, every crash point of a drawn scenario.
